@@ -288,7 +288,7 @@ def h_read_datafile_table_twice(h: H):
             h.ensure("CHECKSUM:second-read-returns-only-if-ITS-bytes-match", SHA(reads2[0]["content"]) == cs.val.z)
             h.ensure("CHECKSUM:second-read-digest-computed-on-its-own-bytes", z3.eq(pyops.str_z(checks[-1][0]), reads2[0]["content"]))
     else:
-        h.ensure("CHECKSUM:second-read-raises-only-corruption", val2.cls == "CorruptDataError")
+        h.ensure("CHECKSUM:second-read-raises-only-corruption", val2.cls == "CorruptDataError", detail=repr(val2))
 
 
 # =================================================================================== _scan_table / scan
